@@ -5,3 +5,4 @@ INVARIANT RoundTrip
 INVARIANT LostNeverRegular
 INVARIANT EmitChain
 CHECK_DEADLOCK FALSE
+INVARIANT ApplyHom
